@@ -85,10 +85,28 @@ def run(ctx):
             cut = len(mods[1][1]) // 2
             write('s0', mods[0][1] + mods[1][1][:cut])
             write('s1', mods[1][1][cut:])
+            # ANY DEFINED BY module (choice tables are a compile option) and a type name defined in three files
+            write('any', 'Foo DEFINITIONS ::= BEGIN Fie ::= SEQUENCE { bar INTEGER, fum ANY DEFINED BY bar } END\n')
+            for k, body in enumerate(['INTEGER', 'BOOLEAN', 'OCTET STRING']):
+                write('dup%d' % k, 'D%d DEFINITIONS ::= BEGIN Id ::= %s  U%d ::= NULL END\n' % (k, body, k))
+            tables = [None,
+                      {('Foo', 'Fie', 'fum'): {0: 'NULL', 1: 'INTEGER'}},
+                      {('Foo', 'Fie', 'fum'): {0: 'INTEGER', 1: 'NULL'}},
+                      {('Foo', 'Fie', 'fum'): {0: 'NULL', 1: 'INTEGER', 2: 'BOOLEAN'}}]
             ncalls = rng.randint(2, 8)
             for ci in range(ncalls):
                 choice = rng.random()
-                if choice < 0.45:
+                adb = None
+                special = None
+                if choice < 0.22:
+                    flist, probes = [files['any']], []
+                    adb = rng.choice(tables)
+                    special = 'any'
+                elif choice < 0.34:
+                    nd = rng.choice([2, 3, 3])
+                    flist, probes = [files['dup%d' % k] for k in range(nd)], []
+                    special = 'dup'
+                elif choice < 0.55:
                     flist, probes = [files['m0']], [('A0', mods[0][0], mods[0][2])]
                 elif choice < 0.7:
                     flist, probes = [files['m0'], files['m1']], [('A0', mods[0][0], mods[0][2]), ('A1', mods[1][0], mods[1][2])]
@@ -102,6 +120,8 @@ def run(ctx):
                     mods[2] = (t, module_text([('A2', t)], name='M2'), g.value(t))
                     write('m2', mods[2][1])
                 codec = rng.choice(CODECS if rng.random() < 0.5 else ['uper', 'ber'])
+                if special == 'any':
+                    codec = rng.choice(['ber', 'der'])
                 numeric = rng.random() < 0.5
                 ctx.case((h, ci, tuple(flist), codec, numeric))
                 ctx.count('call.%s.numeric=%s.files=%d' % ('x', numeric, len(flist)))
@@ -109,7 +129,7 @@ def run(ctx):
                 def compile_(cache):
                     try:
                         with core.time_limit(60):
-                            return ('ok', asn1tools.compile_files(flist, codec, cache_dir=cache, numeric_enums=numeric))
+                            return ('ok', asn1tools.compile_files(flist, codec, any_defined_by_choices=adb, cache_dir=cache, numeric_enums=numeric))
                     except Exception as e:
                         return ('err', impl.classify(e))
                 cached = compile_(cache_dir)
@@ -121,13 +141,24 @@ def run(ctx):
                 if cached[0] == 'ok':
                     f1 = fingerprint(cached[1], probes, codec)
                     f2 = fingerprint(fresh[1], probes, codec)
+                    if special == 'any':
+                        # behaviour that depends on the choice table: decoding a NULL / INTEGER / raw body
+                        for sp, ff in ((cached[1], f1), (fresh[1], f2)):
+                            for data in (b'0\x05\x02\x01\x00\x05\x00', b'0\x06\x02\x01\x01\x02\x01\x05', b'0\x06\x02\x01\x00\x02\x01\x05', b'0\x06\x02\x01\x02\x01\x01\xff'):
+                                r = impl.decode(sp, 'Fie', data)
+                                ff.append(('Fie', repr(r[:2])))
+                    if special == 'dup':
+                        for sp, ff in ((cached[1], f1), (fresh[1], f2)):
+                            for tn in ('Id', 'U0', 'U2'):
+                                r = impl.encode(sp, tn, 1)
+                                ff.append((tn, r[0], r[1] if r[0] == 'ok' else r[1]))
                     if f1 != f2:
                         ctx.violation('cached specification behaves differently from an uncached compile of the same call',
-                                      {'files': [open(f).read() for f in flist], 'codec': codec, 'numeric_enums': numeric, 'call_index': ci,
+                                      {'files': [open(f).read() for f in flist], 'codec': codec, 'numeric_enums': numeric, 'any_defined_by_choices': repr(adb), 'call_index': ci,
                                        'cached': repr(f1)[:600], 'fresh': repr(f2)[:600]})
                     elif len(ctx.samples) < 3:
                         ctx.sample({'history': h, 'call': ci, 'codec': codec, 'numeric_enums': numeric, 'files': [os.path.basename(f) for f in flist], 'fingerprint_equal': True})
-                    opts = repr((None, 'utf-8', numeric)).encode('utf-8')
+                    opts = repr((adb, 'utf-8', numeric)).encode('utf-8')
                     keyreqs.append('cachekey\t%s\t%s\t(%s)' % (codec.encode().hex(), opts.hex(), ' '.join(open(f, 'rb').read().hex() or '-' for f in flist)))
                     keymeta.append((cache_dir, flist, codec, numeric))
             # key correspondence: every key in the store is the model key of some call of this history
